@@ -8,7 +8,7 @@ verus! {
 //@include prelude/paths.rs
 //@guards write_serialize_lock.lock(
 //@pure get
-//@world write_serialize_lock.lock drop snapshot_tracker.get committed_txns.insert
+//@world write_serialize_lock.lock drop snapshot_tracker.get committed_txns.insert snapshot_tracker.close_raw
 
 // ---- ghost world: the table of committed transactions (commit timestamp -> conflict set), protected by the oracle mutex
 pub struct CmG { pub id: int }                                  // ghost identity of one transaction's read/conflict sets
@@ -82,6 +82,14 @@ impl SnapshotTracker {
     pub fn get_seqno_safe_to_gc(&self, Tracked(w): Tracked<&mut World>) -> (r: u64) ensures *final(w) == *old(w), r == old(w).freed { unimplemented!() }
     #[verifier::external_body]
     pub fn get(&self, Tracked(w): Tracked<&mut World>) -> (r: u64) ensures *final(w) == *old(w), r == old(w).visible { unimplemented!() }
+    // P-REG (C05): unregistering an instant is the privilege of the view that registered it (SnapshotNonce::drop, proved in
+    // U-TRACKER). Nothing in this unit owns a registration: the transaction's nonce is alive during commit and unregisters
+    // itself on drop, so any call from here unregisters some live view a second time (finding D2)
+    #[verifier::external_body]
+    pub fn close_raw(&self, instant: u64, Tracked(w): Tracked<&mut World>)
+        requires false, // [C05:P-REG-unregister-only-by-the-owning-view]
+        ensures *final(w) == *old(w),
+    { unimplemented!() }
 }
 
 //@extract-type src/tx/optimistic/oracle.rs :: CommitOutcome
@@ -92,7 +100,7 @@ pub open spec fn must_refuse(w: World, instant: u64, me: CmG) -> bool {
     exists|ts: u64| #![trigger w.committed[ts]] w.committed.dom().contains(ts) && ts > instant && conflicts(me, w.committed[ts])
 }
 
-//@extract src/tx/optimistic/oracle.rs :: Oracle :: with_commit world props=C07
+//@extract src/tx/optimistic/oracle.rs :: Oracle :: with_commit world props=C07+C05
 //@contract
     requires !old(w).locked, instant < u64::MAX,
         // S7: the apply closure may be called only for a transaction that passed validation
